@@ -374,11 +374,7 @@ func checkCmd(args []string) int {
 	t0 := time.Now()
 	m := loadMachine()
 	m.Tier = tier
-	spec, ok := properties[prop]
-	if !ok {
-		fmt.Fprintln(os.Stderr, "unknown property", prop)
-		return 2
-	}
+	spec := properties[prop]
 	known := loadKnown()
 	var harnesses []*hrun
 	for _, f := range m.HarnessFuncs("H_" + prop + "_") {
